@@ -215,7 +215,7 @@ func genC16Text(t *rapid.T, l string) string {
 	n := drawInt(t, 1, 5, l+".n")
 	var sb strings.Builder
 	for i := 0; i < n; i++ {
-		sb.WriteString(pick(t, l+".p", []string{"w", " ", "\n", "\r\n", "é", "世界", "\t", "line\n", "}", "%", "#", "-", "{ ", "\n\n", "x y", "😀"}))
+		sb.WriteString(pick(t, l+".p", []string{"w", " ", "\n", "\r\n", "é", "世界", "\t", "line\n", "}", "%", "#", "-", "{ ", "\n\n", "x y", "😀", "\uFEFF", "\uFEFF", "\u200b", "\u00a0", "\x00", "\v\f", "\xff"}))
 	}
 	s := sb.String()
 	for strings.HasSuffix(s, "{") {
@@ -300,7 +300,7 @@ func genC16Segs(t *rapid.T, maxSegs int) []c16Seg {
 
 var _ = register(&propSpec{
 	ID:    "C16.lex",
-	Rule:  "random layouts written by a printer that knows the byte offset of every lexeme: multi-line / CRLF / multi-byte text, {# #} comments, verbatim blocks, variable and block tags with random lexemes (identifiers incl. number-prefixed, keywords, numbers, strings with escapes, every symbol), 0-3 spaces/tabs, all four trim delimiters; the token list from the lexer must equal the printer's in type, value, trim flag and (line, col) = position of the lexeme's first byte. Non-trivial: a token beyond line 1, or multi-byte text / escapes / comments / verbatim before a checked token; distinct by source.",
+	Rule:  "random layouts written by a printer that knows the byte offset of every lexeme: multi-line / CRLF / multi-byte text (incl. BOM, NBSP, ZWSP, NUL, VT/FF, invalid UTF-8), {# #} comments, verbatim blocks, variable and block tags with random lexemes (identifiers incl. number-prefixed, keywords, numbers, strings with escapes, every symbol), 0-3 spaces/tabs, all four trim delimiters; the token list from the lexer must equal the printer's in type, value, trim flag and (line, col) = position of the lexeme's first byte. Non-trivial: a token beyond line 1, or multi-byte text / escapes / comments / verbatim before a checked token; distinct by source.",
 	Gen:   func(t *rapid.T) any { return &c16LexCase{Segs: genC16Segs(t, 8)} },
 	New:   func() any { return &c16LexCase{} },
 	Check: checkC16Lex,
@@ -495,7 +495,7 @@ func genC16Layout(t *rapid.T, l string) string {
 	n := drawInt(t, 0, 5, l+".n")
 	var sb strings.Builder
 	for i := 0; i < n; i++ {
-		sb.WriteString(pick(t, l+".p", []string{"line\n", "é世 ", "\r\n", "{# c #}", "{% verbatim %}{% x %}\n{% endverbatim %}", "  ", "{{ \"s\\\"q\" }}", "{{ 1 }}\n", "\t", "{% if 1 %}y{% endif %}", "\n\n", "{{- 2 -}}", "😀"}))
+		sb.WriteString(pick(t, l+".p", []string{"line\n", "é世 ", "\r\n", "{# c #}", "{% verbatim %}{% x %}\n{% endverbatim %}", "  ", "{{ \"s\\\"q\" }}", "{{ 1 }}\n", "\t", "{% if 1 %}y{% endif %}", "\n\n", "{{- 2 -}}", "😀", "\uFEFF", "\u00a0", "\v"}))
 	}
 	return sb.String()
 }
@@ -570,7 +570,7 @@ func genC16Fault(t *rapid.T) *c16Fault {
 		files["/root.tpl"] = genC16Layout(t, "r1") + `{% import "/lib/mac.tpl" helper %}{{ helper(1) }}`
 	}
 	if drawBool(t, "prefix") {
-		cs.Prefix = genC16Layout(t, "prefix") + pick(t, "pfx", []string{"p\n", "", "é", "\r\n\r\n", "{# x #}"})
+		cs.Prefix = genC16Layout(t, "prefix") + pick(t, "pfx", []string{"p\n", "", "é", "\r\n\r\n", "{# x #}", "\uFEFF"})
 	}
 	return cs
 }
